@@ -20,19 +20,82 @@ func (v V) Int() int     { return int(v.Z.Int64()) }
 func (v V) I32() int32   { return int32(v.Z.Int64()) }
 func (v V) U64() uint64  { return v.Z.Uint64() }
 func (v V) Bool() bool   { return v.Z.Sign() != 0 }
-func (v V) U64s() []uint64 {
-	r := make([]uint64, len(v.L))
-	for i, x := range v.L {
-		r[i] = x.U64()
+
+// Guarded argument slices.  Every []uint64 / []int32 / []byte argument handed to an executor is a WINDOW of a larger
+// backing array whose spare capacity (0, 3 or 67 elements, cycling) is filled with a non-zero junk pattern.  A callee that
+// reads its argument beyond len (re-slicing into the capacity) computes with junk and gives a wrong answer; a callee that
+// writes beyond len (append into the spare capacity, in-place padding) is caught by the guard check after the call
+// (Gen.Case turns the observation into "[P,-7777777]", which no specification accepts).
+var guardChecks []func() bool
+var guardTick int
+
+func guardPad() int {
+	guardTick++
+	switch guardTick % 3 {
+	case 0:
+		return 0
+	case 1:
+		return 3
 	}
-	return r
+	return 67
+}
+
+func guardReset() { guardChecks = guardChecks[:0] }
+
+func guardsIntact() bool {
+	for _, f := range guardChecks {
+		if !f() {
+			return false
+		}
+	}
+	return true
+}
+
+const junk64 = 0xa5a5a5a5a5a5a5a5
+const junk32 = 0x5a5a5a5a
+const junk8 = 0xa5
+
+func (v V) U64s() []uint64 {
+	n, pad := len(v.L), guardPad()
+	full := make([]uint64, n+pad)
+	for i, x := range v.L {
+		full[i] = x.U64()
+	}
+	for i := n; i < n+pad; i++ {
+		full[i] = junk64
+	}
+	if pad > 0 {
+		guardChecks = append(guardChecks, func() bool {
+			for i := n; i < n+pad; i++ {
+				if full[i] != junk64 {
+					return false
+				}
+			}
+			return true
+		})
+	}
+	return full[:n]
 }
 func (v V) I32s() []int32 {
-	r := make([]int32, len(v.L))
+	n, pad := len(v.L), guardPad()
+	full := make([]int32, n+pad)
 	for i, x := range v.L {
-		r[i] = x.I32()
+		full[i] = x.I32()
 	}
-	return r
+	for i := n; i < n+pad; i++ {
+		full[i] = junk32
+	}
+	if pad > 0 {
+		guardChecks = append(guardChecks, func() bool {
+			for i := n; i < n+pad; i++ {
+				if full[i] != junk32 {
+					return false
+				}
+			}
+			return true
+		})
+	}
+	return full[:n]
 }
 func (v V) I64s() []int64 {
 	r := make([]int64, len(v.L))
@@ -42,11 +105,25 @@ func (v V) I64s() []int64 {
 	return r
 }
 func (v V) Bytes() []byte {
-	r := make([]byte, len(v.L))
+	n, pad := len(v.L), guardPad()
+	full := make([]byte, n+pad)
 	for i, x := range v.L {
-		r[i] = byte(x.Z.Uint64())
+		full[i] = byte(x.Z.Uint64())
 	}
-	return r
+	for i := n; i < n+pad; i++ {
+		full[i] = junk8
+	}
+	if pad > 0 {
+		guardChecks = append(guardChecks, func() bool {
+			for i := n; i < n+pad; i++ {
+				if full[i] != junk8 {
+					return false
+				}
+			}
+			return true
+		})
+	}
+	return full[:n]
 }
 func (v V) Str() string { return string(v.Bytes()) }
 func (v V) Strs() []string {
